@@ -84,6 +84,9 @@ def ready(ctx, facts):
     eqs = _switch_on(b, lambda e: e[0] == "bin" and e[1] in ("Eq", "Ge", "Gt", "Le", "Lt", "Ne") and "pending_count" in flow.field_names_in(e))
     yes = [(bb, i, s) for bb, i, s in b.iter_assigns() if s["r"]["k"] == "agg" and s["r"].get("adt", "").endswith("batcher::Ready") and s["r"]["vn"] == "Yes"]
     no = [(bb, i, s) for bb, i, s in b.iter_assigns() if s["r"]["k"] == "agg" and s["r"].get("adt", "").endswith("batcher::Ready") and s["r"]["vn"] == "No"]
+    helper_sites = yes_helpers(facts, b)
+    if not yes and helper_sites:
+        return ready_via_helper(ctx, facts, b, dom, eqs, no, helper_sites)
     if not eqs or not yes or not no:
         return ctx.missing("GUARD-ready", "pending_count comparison / Ready::Yes / Ready::No in is_ready_for_validation")
     sw, e, ed = eqs[0]
@@ -105,7 +108,19 @@ def ready(ctx, facts):
         e2 = flow.expr_of(b, s["r"]["ops"][0])
         sub = e2[0] == "call" and e2[1].endswith("watch::Sender::<T>::subscribe") and "validation_result" in flow.field_names_in(e2) and "get_batch_by_offset" in str(e2)
         ctx.ob("GUARD-ready", f"no-subscribes#{k}", ok and sub, "waiters subscribe to their own batch's verdict channel" if ok and sub else "Ready::No does not carry a subscription to this batch's validation_result", site_of(b, bb, i))
-    # ---- COUNT
+    count_rule(ctx, facts, dom)
+    # ---- ORDER-take
+    ctx.rule("ORDER-take: the BatchState moved into Ready::Yes comes from batches.pop_front() / batches[i].take() via expect_not_yet_validated")
+    for k, (bb, i, s) in enumerate(yes):
+        ops = s["r"]["ops"]
+        e4 = flow.expr_of(b, ops[-1])
+        ok = e4[0] == "call" and e4[1].endswith("expect_not_yet_validated")
+        takes = [tb for tb, t in b.calls() if F.call_matches(t, re.compile(r"(VecDeque::<T, A>::(pop_front|pop_back|remove|swap_remove_back|swap_remove_front)|Option::<T>::take|std::mem::take|std::mem::replace)$")) and "batches" in flow.field_names_in(flow.expr_of(b, t["args"][0]))]
+        ok_dom = bool(takes) and any(_reaches(b, tb, bb) for tb in takes) and not _reach_avoiding_all(b, ed[1] if ed else 0, set(takes), bb)
+        ctx.ob("ORDER-take", f"yes-batch-removed-first#{k}", ok and ok_dom, "the batch is removed from the deque on every path to Ready::Yes" if ok and ok_dom else "Ready::Yes can be built while the batch is still registered (a second completion would validate it again)", site_of(b, bb, i))
+
+
+def count_rule(ctx, facts, dom):
     ctx.rule("COUNT: pending_count := pending_count + 1, once, after the duplicate-record and offset checks")
     ws = flow.field_writes(facts, "pending_count", r"BatchState<|Batcher<")
     ctx.floor("COUNT", "writes to pending_count", len(ws), 1)
@@ -126,15 +141,57 @@ def ready(ctx, facts):
         sets = flow.find_calls(wb, re.compile(r"BitSlice::<T, O>::set$"))
         ok_set = bool(sets) and all(flow.dominates(dom, sb, bb) for sb, _ in sets) and all(F.const_int(t["args"][2]) == 1 for _, t in sets)
         ctx.ob("COUNT", f"write#{n}:bit-set", ok_set, "the record's pending bit is set before counting", site_of(wb, bb, idx))
-    # ---- ORDER-take
+
+
+def yes_helpers(facts, b):
+    """[(call_bb, helper_body)] calls from b to an inherent Batcher method that constructs Ready::Yes (the take-the-batch
+    part factored out into a helper)"""
+    out = []
+    for bb, t in b.calls():
+        fn = F.callee(t)[0] or ""
+        if fn.startswith(BT) and fn != b.path:
+            hb = facts.bodies.get(fn)
+            if hb is not None and any(s["r"]["k"] == "agg" and s["r"].get("adt", "").endswith("batcher::Ready") and s["r"]["vn"] == "Yes" for _, _, s in hb.iter_assigns()):
+                out.append((bb, hb))
+    return out
+
+
+def ready_via_helper(ctx, facts, b, dom, eqs, no, helper_sites):
+    """same obligations as `ready`, with Ready::Yes built by a helper that is_ready_for_validation calls"""
+    if not eqs or not no:
+        return ctx.missing("GUARD-ready", "pending_count comparison / Ready::No in is_ready_for_validation")
+    sw, e, ed = eqs[0]
+    other = e[3] if "pending_count" in flow.field_names_in(e[2]) else e[2]
+    shape = False
+    if other[0] == "call" and other[1] == "std::cmp::min":
+        a0, a1 = other[2]
+        names = flow.field_names_in(a0) | flow.field_names_in(a1)
+        rem = a1 if "records_per_batch" in flow.field_names_in(a0) else a0
+        shape = "records_per_batch" in names and "checked_sub" in str(rem) and "TotalRecords::count" in str(rem) and "first_batch" in str(rem)
+    ctx.ob("GUARD-ready", "comparison-is-eq", e[1] == "Eq", f"readiness test is {e[1]}(pending_count, total_count)", site_of(b, sw))
+    ctx.ob("GUARD-ready", "total-count-shape", shape, "total_count = min(records_per_batch, total_records - first_record_in_batch)" if shape else f"total_count is {str(other)[:200]}", site_of(b, sw))
+    for k, (cbb, hb) in enumerate(helper_sites):
+        ok = ed is not None and flow.dominates(dom, ed[1], cbb) and not flow.dominates(dom, ed[0], cbb)
+        ctx.ob("GUARD-ready", f"yes-on-true-edge#{k}", ok, "the batch is taken (Ready::Yes) only when the count is complete" if ok else f"`{hb.path.split('::')[-1]}` (which builds Ready::Yes) is called on a path that is not guarded by pending_count == total_count: a batch is released although records are outstanding, or a record beyond the total is accepted", site_of(b, cbb))
+    for k, (bb, i, s) in enumerate(no):
+        ok = ed is not None and flow.dominates(dom, ed[0], bb)
+        e2 = flow.expr_of(b, s["r"]["ops"][0])
+        sub = e2[0] == "call" and e2[1].endswith("watch::Sender::<T>::subscribe") and "validation_result" in flow.field_names_in(e2) and "get_batch_by_offset" in str(e2)
+        ctx.ob("GUARD-ready", f"no-subscribes#{k}", ok and sub, "waiters subscribe to their own batch's verdict channel" if ok and sub else "Ready::No does not carry a subscription to this batch's validation_result", site_of(b, bb, i))
+    count_rule(ctx, facts, dom)
     ctx.rule("ORDER-take: the BatchState moved into Ready::Yes comes from batches.pop_front() / batches[i].take() via expect_not_yet_validated")
-    for k, (bb, i, s) in enumerate(yes):
-        ops = s["r"]["ops"]
-        e4 = flow.expr_of(b, ops[-1])
-        ok = e4[0] == "call" and e4[1].endswith("expect_not_yet_validated")
-        takes = [tb for tb, t in b.calls() if F.call_matches(t, re.compile(r"(VecDeque::<T, A>::(pop_front|pop_back|remove|swap_remove_back|swap_remove_front)|Option::<T>::take|std::mem::take|std::mem::replace)$")) and "batches" in flow.field_names_in(flow.expr_of(b, t["args"][0]))]
-        ok_dom = bool(takes) and any(_reaches(b, tb, bb) for tb in takes) and not _reach_avoiding_all(b, ed[1] if ed else 0, set(takes), bb)
-        ctx.ob("ORDER-take", f"yes-batch-removed-first#{k}", ok and ok_dom, "the batch is removed from the deque on every path to Ready::Yes" if ok and ok_dom else "Ready::Yes can be built while the batch is still registered (a second completion would validate it again)", site_of(b, bb, i))
+    seen = set()
+    for cbb, hb in helper_sites:
+        if hb.path in seen:
+            continue
+        seen.add(hb.path)
+        ctx.count(bodies=1)
+        for k, (bb, i, s) in enumerate([(bb, i, s) for bb, i, s in hb.iter_assigns() if s["r"]["k"] == "agg" and s["r"].get("adt", "").endswith("batcher::Ready") and s["r"]["vn"] == "Yes"]):
+            e4 = flow.expr_of(hb, s["r"]["ops"][-1])
+            ok = e4[0] == "call" and e4[1].endswith("expect_not_yet_validated")
+            takes = [tb for tb, t in hb.calls() if F.call_matches(t, re.compile(r"(VecDeque::<T, A>::(pop_front|pop_back|remove|swap_remove_back|swap_remove_front)|Option::<T>::take|std::mem::take|std::mem::replace)$")) and "batches" in flow.field_names_in(flow.expr_of(hb, t["args"][0]))]
+            ok_dom = bool(takes) and not _reach_avoiding_all(hb, 0, set(takes), bb)
+            ctx.ob("ORDER-take", f"yes-batch-removed-first#{k}", ok and ok_dom, "the batch is removed from the deque on every path to Ready::Yes" if ok and ok_dom else "Ready::Yes can be built while the batch is still registered (a second completion would validate it again)", site_of(hb, bb, i))
 
 
 def _diverges(b, bb, limit=40):
@@ -276,6 +333,9 @@ def loud(ctx, facts):
             ctx.missing("LOUD", BT + fn)
             continue
         n = len(flow.find_calls(b, re.compile(r"expect_not_yet_validated$")))
+        if fn == "is_ready_for_validation":
+            for cbb, hb in yes_helpers(facts, b):
+                n += len(flow.find_calls(hb, re.compile(r"expect_not_yet_validated$")))
         ctx.ob("LOUD", f"{fn}:expect_not_yet_validated", n >= 1, f"{n} call(s) to expect_not_yet_validated", site_of(b))
     e = facts.bodies.get("<std::option::Option<T> as protocol::context::batcher::ExpectBatch>::expect_not_yet_validated")
     if e is None:
